@@ -30,6 +30,13 @@ def Subst(survey: Ctx, text: BindVal, ctx: Ctx) -> str:
 
 
 @spec
+def SubstF(survey: Ctx, text: BindVal, ctx: Ctx, use_current: bool, reference_parent: bool) -> str:
+    """insert_xpaths with its flags: relative paths anchored with current() (secondary-instance predicates), and the
+    parent of the referenced node (select from repeat)."""
+    uninterpreted()
+
+
+@spec
 def TruthNorm(k: str, v: str) -> str:
     """XLSForm truth spellings in a logic column become XPath booleans; anything else is left alone (C05)."""
     if k == "readonly" or k == "required" or k == "relevant" or k == "constraint" or k == "calculate":
@@ -66,7 +73,8 @@ def _(self: ElemK) -> str:
 @contract("Survey.insert_xpaths", module="pyxform.survey")
 def _(self: SV, text: BindVal, context: CV, use_current: bool = False, reference_parent: bool = False) -> str:
     trusted("reference substitution (C03 kernels / bounded family); survey and context may be any record/reference view")
-    ensures(result == Subst(ctx_of(self), text, ctx_of(context)))
+    ensures(implies(not use_current and not reference_parent, result == Subst(ctx_of(self), text, ctx_of(context))))
+    ensures(result == SubstF(ctx_of(self), text, ctx_of(context), use_current, reference_parent))
     may_raise(PyXFormError, when=True)
 
 
